@@ -531,6 +531,50 @@ def family_programs():
                                             V("st")])))])),
         ("list", [("member", ("mcall", V("o"), "tick", []), "n"),
                   ("member", ("mcall", V("o"), "tick", []), "n")])])))
+    # a loop left by return takes its loop variable with it: a closure
+    # created before the loop still sees the outer binding afterwards
+    for exitk in ("return", "break", "none"):
+        for itk in (("list", [L(1), L(2), L(3)]), ("set", [L(1), L(2), L(3)]),
+                    L("abc"),
+                    ("map", [(L(1), L("p")), (L(2), L("q"))])):
+            what = "keys" if itk[0] == "map" else None
+            hit = L("b") if itk[0] == "lit" else L(2)
+            if exitk == "return":
+                body = ("if", [(("cmp", [V("x"), "==", hit]),
+                                ("return", V("g")))], None)
+            elif exitk == "break":
+                body = ("if", [(("cmp", [V("x"), "==", hit]),
+                                ("break",))], None)
+            else:
+                body = ("log", V("x"))
+            progs.append(("loopvar", ("seq", [
+                ("def", "x", L("outer")),
+                ("def", "mk", ("fn", [], ("seq", [
+                    ("def", "g", ("fn", [], V("x"))),
+                    ("for", ["x"], what, itk, ("seq", [body])),
+                    V("g")])), True),
+                ("list", [("call", ("call", V("mk"), []), []), V("x")])])))
+    # a built-in name defined by the program after a function that uses it
+    # was first called: the function sees the new binding from then on
+    progs.append(("rebind-builtin", ("seq", [
+        ("def", "size", ("fn", [("l", None, False)],
+                         ("call", V("length"), [("pos", V("l"))])), True),
+        ("def", "r1", ("call", V("size"), [("pos", ("list", [L(1), L(2)]))])),
+        ("def", "length", ("fn", [("o", None, False)], L(42)), True),
+        ("list", [V("r1"),
+                  ("call", V("size"), [("pos", ("list", [L(1), L(2)]))])])])))
+    progs.append(("rebind-builtin", ("seq", [
+        ("def", "twice", ("fn", [("n", None, False)],
+                          ("call", V("string"), [("pos", V("n"))])), True),
+        ("def", "out", ("list", [])),
+        ("for", ["i"], None, ("list", [L(1), L(2), L(3)]), ("seq", [
+            ("call", V("append"), [("pos", V("out")),
+                                   ("pos", ("call", V("twice"),
+                                            [("pos", V("i"))]))]),
+            ("if", [(("cmp", [V("i"), "==", L(1)]),
+                     ("def", "string", ("fn", [("q", None, False)],
+                                        L("shadow")), True))], None)])),
+        V("out")])))
     # parameters shadow globals; assignment to a parameter stays local
     progs.append(("params", ("seq", [
         ("def", "x", L(1)),
